@@ -85,6 +85,13 @@ also one with **kwargs (its replace chain is then checked like a local one); sec
 `k in M.keys()` are accepted, `for k in (<other list> or M.keys())` is refuted (unlisted sections are dropped); "nothing found"
 refutations treat every call the rule cannot read as hidden text.
 
+Round 10: a loop over an iterable defined in both branches of the preceding `if` is moved into the branches (tests of the
+same single-assignment flag inside the body are folded), a loop over a one-element literal is unrolled, a loop over a list of
+tuples built by a comprehension is read as a loop over the comprehension's source (`Canon.distribute_loops`,
+`unroll_literal_loops`).  New refutations: a return path that hands back text cached on the object whose key leaves out task
+attributes the rendering reads (`check_memo`); the flat/sectioned decision counting only declared / filtered sections; a
+child-id -> parent-id map built from the root and its direct children only.
+
 Engine limitations worked around here (helpers below, nothing under sa/ was changed): string-building normalisation (`parts`),
 inlining of multi-statement single-return helpers (`deep`), path enumeration with event counts (`paths`, DESIGN 3.7 is not in
 sa/), structural loop nesting (`loop_chains`), accumulator recognition (`Acc`), a propositional evaluator for branch conditions,
@@ -929,9 +936,122 @@ class Canon:
             T().visit(self.node)
             self.touched = True
 
+    # ------------------------------------------------------------------ loops over locally defined iterables
+    def _single_def(self, name: str) -> bool:
+        return sum(1 for n in ast.walk(self.node) if isinstance(n, ast.Name) and n.id == name and isinstance(n.ctx, ast.Store)) == 1
+
+    def distribute_loops(self, stmts: List[ast.stmt]) -> List[ast.stmt]:
+        """if c: ..; xs = A  else: ..; xs = B  followed by  for v in xs: BODY   ->   the loop is moved to the end of both
+        branches (over A / B), and tests of the very same single-assignment name c inside BODY are folded there"""
+        for st in stmts:
+            if isinstance(st, (ast.FunctionDef, ast.AsyncFunctionDef, ast.ClassDef)):
+                continue
+            for fld in ('body', 'orelse', 'finalbody'):
+                b = getattr(st, fld, None)
+                if isinstance(b, list) and b and isinstance(b[0], ast.stmt):
+                    setattr(st, fld, self.distribute_loops(b))
+        for i in range(len(stmts) - 1):
+            iff, loop = stmts[i], stmts[i + 1]
+            if not (isinstance(iff, ast.If) and iff.orelse and isinstance(loop, ast.For) and not loop.orelse and
+                    isinstance(loop.iter, ast.Name)):
+                continue
+            xs = loop.iter.id
+            ends = [iff.body[-1], iff.orelse[-1]]
+            if not all(isinstance(e, ast.Assign) and len(e.targets) == 1 and isinstance(e.targets[0], ast.Name) and
+                       e.targets[0].id == xs for e in ends):
+                continue
+            uses = [n for n in ast.walk(self.node) if isinstance(n, ast.Name) and n.id == xs]
+            if len(uses) != 3:
+                continue
+            def fold(body, name, truth):
+                out = []
+                for b_ in copy.deepcopy(body):
+                    out.append(b_)
+                for parent in [x for b_ in out for x in ast.walk(b_)]:
+                    for fld in ('body', 'orelse'):
+                        bl = getattr(parent, fld, None)
+                        if isinstance(bl, list) and bl and isinstance(bl[0], ast.stmt):
+                            nb = []
+                            for y in bl:
+                                if isinstance(y, ast.If) and isinstance(y.test, ast.Name) and y.test.id == name:
+                                    nb.extend(y.body if truth else y.orelse)
+                                else:
+                                    nb.append(y)
+                            setattr(parent, fld, nb or [ast.copy_location(ast.Pass(), parent)])
+                top = []
+                for y in out:
+                    if isinstance(y, ast.If) and isinstance(y.test, ast.Name) and y.test.id == name:
+                        top.extend(y.body if truth else y.orelse)
+                    else:
+                        top.append(y)
+                return top or [ast.copy_location(ast.Pass(), loop)]
+            cname = iff.test.id if isinstance(iff.test, ast.Name) and self._single_def(iff.test.id) else None
+            new_if = ast.copy_location(ast.If(test=iff.test, body=list(iff.body[:-1]), orelse=list(iff.orelse[:-1])), iff)
+            for branch, end, truth in ((new_if.body, ends[0], True), (new_if.orelse, ends[1], False)):
+                body = fold(loop.body, cname, truth) if cname else copy.deepcopy(loop.body)
+                branch.append(ast.copy_location(ast.For(target=copy.deepcopy(loop.target), iter=end.value, body=body, orelse=[]), loop))
+            self.changed = True
+            return self.distribute_loops(stmts[:i] + [new_if] + stmts[i + 2:])
+        return stmts
+
+    def unroll_literal_loops(self, stmts: List[ast.stmt]) -> List[ast.stmt]:
+        """for a, b in [(x, y)]: BODY -> a = x; b = y; BODY      (one element, no break/continue in BODY)
+        for a, b in ps: BODY  with  ps = [(E1, E2) for v in X]  -> for v' in X: a = E1'; b = E2'; BODY"""
+        out = []
+        for st in stmts:
+            if not isinstance(st, (ast.FunctionDef, ast.AsyncFunctionDef, ast.ClassDef)):
+                for fld in ('body', 'orelse', 'finalbody'):
+                    b = getattr(st, fld, None)
+                    if isinstance(b, list) and b and isinstance(b[0], ast.stmt):
+                        setattr(st, fld, self.unroll_literal_loops(b))
+            if isinstance(st, ast.For) and not st.orelse and isinstance(st.target, ast.Tuple) and \
+                    all(isinstance(e, ast.Name) for e in st.target.elts):
+                n = len(st.target.elts)
+                it = st.iter
+                if isinstance(it, (ast.List, ast.Tuple)) and len(it.elts) == 1 and isinstance(it.elts[0], ast.Tuple) and \
+                        len(it.elts[0].elts) == n and not any(isinstance(x, (ast.Break, ast.Continue)) for b_ in st.body for x in ast.walk(b_)):
+                    out += [ast.copy_location(ast.Assign(targets=[_name(t_.id, True)], value=v_), st)
+                            for t_, v_ in zip(st.target.elts, it.elts[0].elts)] + st.body
+                    self.changed = True
+                    continue
+                if isinstance(it, ast.Name) and self._single_def(it.id):
+                    d = next((x for x in ast.walk(self.node) if isinstance(x, ast.Assign) and len(x.targets) == 1 and
+                              isinstance(x.targets[0], ast.Name) and x.targets[0].id == it.id), None)
+                    comp = d.value if d is not None else None
+                    if isinstance(comp, ast.ListComp) and len(comp.generators) == 1 and \
+                            isinstance(comp.generators[0].target, ast.Name) and isinstance(comp.elt, ast.Tuple) and len(comp.elt.elts) == n:
+                        g = comp.generators[0]
+                        v2 = self.fresh(g.target.id)
+                        elts = []
+                        for e in comp.elt.elts:
+                            e = copy.deepcopy(e)
+                            for x in ast.walk(e):
+                                if isinstance(x, ast.Name) and x.id == g.target.id:
+                                    x.id = v2
+                            elts.append(e)
+                        body = [ast.copy_location(ast.Assign(targets=[_name(t_.id, True)], value=e), st)
+                                for t_, e in zip(st.target.elts, elts)] + st.body
+                        for c_ in reversed(g.ifs):
+                            c_ = copy.deepcopy(c_)
+                            for x in ast.walk(c_):
+                                if isinstance(x, ast.Name) and x.id == g.target.id:
+                                    x.id = v2
+                            body = [ast.copy_location(ast.If(test=c_, body=body, orelse=[]), st)]
+                        out.append(ast.copy_location(ast.For(target=_name(v2, True), iter=copy.deepcopy(g.iter), body=body, orelse=[]), st))
+                        self.changed = True
+                        continue
+            out.append(st)
+        return out
+
     def run(self) -> Func:
         self.buffers_to_text()
         self.alias_locals()
+        self.changed = False
+        self.node.body = self.unroll_literal_loops(self.distribute_loops(self.node.body))
+        if self.changed:
+            self.node.body = self.unroll_literal_loops(self.node.body)
+            self.touched = True
+            ast.fix_missing_locations(self.node)
         self.return_expression()
         for _ in range(10):
             self.changed = False
@@ -2348,7 +2468,9 @@ def check_partition(ctx, o, G: Gantt, M: str, reader: ast.For) -> bool:
     ok = True
     for st, k, x in adds:
         if not (isinstance(x, ast.Name) and x.id == B.target.id):
-            raise Und(f, st, st, f"the section map receives `{src(x)}`, not the loop's task `{B.target.id}`")
+            xx = deep(ctx, f, x, flow_of(f).node_of_expr(x))
+            if not (isinstance(xx, ast.Name) and xx.id == B.target.id):
+                raise Und(f, st, st, f"the section map receives `{src(x)}`, not the loop's task `{B.target.id}`")
         key = deep(ctx, f, k, flow_of(f).node_of_expr(k))
         t = B.target.id
         good = match(f"{t}.gantt_section if 'gantt_section' in {t}.__dict__ else $d", key) or \
@@ -2380,6 +2502,7 @@ def _bad(o) -> int:
 
 
 def gantt_once(ctx, o):
+    check_memo(ctx, o, canonical(ctx, ctx.prog.func(qual(GANTT, '__src'))))
     G = Gantt(ctx)
     f = G.f
     n0 = _bad(o)
@@ -2415,6 +2538,23 @@ def gantt_once(ctx, o):
         if is_all_tasks(it, f, G.w):
             units[id(L)] = L
             o.site(f, L, f"unsectioned: one task line per `{L.target.id}` of self.{G.w}.tasks")
+            # the flat rendering may be chosen only when all tasks share one section: a test that counts a filtered /
+            # default-less collection of sections (and nothing else) sends plans with several sections there
+            conds = facts.node_conditions(ctx.prog, f, L, ctx.typer)
+            comps = [x for a_, _ in conds for x in ast.walk(a_) if isinstance(x, (ast.ListComp, ast.SetComp, ast.GeneratorExp))
+                     and len(x.generators) == 1 and is_all_tasks(deep(ctx, f, x.generators[0].iter), f, G.w)]
+            other = any(isinstance(x, ast.Call) and isinstance(x.func, ast.Name) and x.func.id in ('any', 'all', 'sum')
+                        for a_, _ in conds for x in ast.walk(a_))
+            if comps and not other and isinstance(comps[0].generators[0].target, ast.Name):
+                tv = comps[0].generators[0].target.id
+                bad = [x for x in comps if _mentions(x.elt, ('gantt_section',)) and
+                       (x.generators[0].ifs or match(f"{tv}.gantt_section", x.elt))]
+                if len(bad) == len(comps):
+                    o.refute(f, L, f"sectioning test: {src(bad[0])[:60]}",
+                             f"the flat (header-less) rendering is chosen by counting `{src(bad[0])[:80]}`, which leaves out the tasks "
+                             f"without a declared gantt_section (their implicit section is not counted): a plan with one named "
+                             f"section plus unsectioned tasks is rendered without any section (expected the section-or-default "
+                             f"of every task)")
             continue
         # sectioned: for k, v in M.items(): <section k> ; for task in v: <line>
         P = C[-1] if C else None
@@ -2881,9 +3021,55 @@ class Edge:
         self.is_start = not self.sides[0][0] and not self.sides[0][1]
 
 
+def check_memo(ctx, o, f: Func) -> bool:
+    """a return path that hands back text kept on the object (`if self.cache[0] == key: return self.cache[1]`): every task
+    attribute the rendering reads must take part in the key, otherwise a change of it re-renders the stale text"""
+    s_ = f.self_name
+    for r in walk_no_nested(f.node):
+        if not (isinstance(r, ast.Return) and r.value is not None):
+            continue
+        root = r.value
+        while isinstance(root, (ast.Subscript, ast.Attribute)):
+            root = root.value
+        if not (isinstance(root, ast.Name) and root.id == s_ and not isinstance(r.value, ast.Name)):
+            continue
+        key = None
+        for a_, pol_ in facts.node_conditions(ctx.prog, f, r, ctx.typer, expand=False):
+            if isinstance(a_, ast.Compare) and len(a_.ops) == 1 and isinstance(a_.ops[0], (ast.Eq, ast.Is)) and pol_:
+                for side in (a_.left, a_.comparators[0]):
+                    if isinstance(side, ast.Name):
+                        d = flow_of(f).defs_of(side.id)
+                        if len(d) == 1 and d[0].kind == 'assign' and d[0].value is not None:
+                            key = d[0]
+        if key is None:
+            continue
+        in_key = {x.attr for x in ast.walk(key.value) if isinstance(x, ast.Attribute)}
+        callee = {id(x.func) for x in ast.walk(f.node) if isinstance(x, ast.Call)}
+        read = set()
+        for st in f.body:
+            if st is key.stmt:
+                continue
+            for x in ast.walk(st):
+                if isinstance(x, ast.Attribute) and id(x) not in callee and isinstance(x.ctx, ast.Load):
+                    b_ = x
+                    while isinstance(b_, (ast.Attribute, ast.Subscript)):
+                        b_ = b_.value
+                    if not (isinstance(b_, ast.Name) and b_.id == s_):
+                        read.add(x.attr)
+        missing = sorted(read - in_key - {'__dict__'})
+        if missing:
+            o.refute(f, r, f"{f.name}: cached text keyed without {', '.join(missing)}",
+                     f"`{src(r)[:50]}` returns the text kept on the object when `{src(key.stmt)[:70]}` is unchanged, but the rendering "
+                     f"also reads {', '.join('`.' + m_ + '`' for m_ in missing)} of the tasks: after such a change the stale "
+                     f"rendering is returned (dependencies / attributes no longer real)")
+            return True
+    return False
+
+
 def check_network(ctx, o, osk):
     f = canonical(ctx, ctx.prog.func(qual(NET, '__src')))
     template_sinks(ctx, osk, f, 'network edge')
+    check_memo(ctx, o, f)
     n0 = _bad(o)
     w = wbs_attr(ctx, NET)
     acc = Acc(ctx, f)
@@ -3886,6 +4072,26 @@ def merge_defs(ctx, f: Func, e: ast.AST, at) -> ast.AST:
 def check_parent(ctx, o, f: Func, st, pv: ast.AST, t: str, w: str):
     s = f.self_name
     conds, value, default = None, None, None
+    mm = match(f"$d.get({t}.id, 0)", pv)
+    if mm and isinstance(mm['d'], ast.DictComp) and len(mm['d'].generators) == 2:
+        dc = mm['d']
+        g0, g1 = dc.generators
+        if isinstance(g0.target, ast.Name) and isinstance(g1.target, ast.Name) and not g0.ifs and not g1.ifs and \
+                match(f"{g1.target.id}.id", dc.key) and match(f"{g0.target.id}.id", dc.value) and \
+                match(f"{g0.target.id}.children", strip_seq(g1.iter)):
+            dom = strip_seq(g0.iter)
+            roots = [n.target.id for n in walk_no_nested(f.node) if isinstance(n, ast.For) and isinstance(n.target, ast.Name)
+                     and match(f"{s}.{w}.roots", strip_seq(n.iter))]
+            if is_all_tasks(dom, f, w) or any(match(p_.format(r=r), dom) for r in roots for p_ in _SUBTREE + ("[{r}] + {r}.all_children",)):
+                o.site(f, st, f"parent = id of the task whose children contain {t} (map over the whole subtree), else 0")
+                return
+            if any(match(p_.format(r=r), dom) for r in roots for p_ in ("[{r}] + list({r}.children)", "[{r}] + {r}.children",
+                                                                        "{r}.children + [{r}]", "list({r}.children) + [{r}]", "[{r}]")):
+                o.refute(f, st, f"parent map over {src(dom)[:50]}",
+                         f"the child-id -> parent-id map is built from `{src(dom)[:60]}` only (the root and its direct children): "
+                         f"tasks three or more levels below a root are not in it and get parent 0 (expected the whole subtree, "
+                         f"all_children + [root])")
+                return
     if isinstance(pv, ast.IfExp):
         cases = []
 
